@@ -214,6 +214,35 @@ func byteCorpus(x *mon.Ctx) []bcase {
 		}
 	}
 
+	// a valid quote followed by zero bytes up to the next multiple of 16 / 64 / 512 / 4096 / 8192 / 16384 / 65536 (buffers are handed
+	// over in whole blocks and pages), one byte short of it and one beyond, and every count of zeros from 1 to a page: trailing
+	// bytes are the quote's extra bytes, zeros included
+	{
+		for vi, v := range valid[:min(2, len(valid))] {
+			seen := map[int]bool{}
+			addPad := func(n int, why string) {
+				if n <= 0 || seen[n] {
+					return
+				}
+				seen[n] = true
+				add("zero-padded", fmt.Sprintf("%d/+%d-zeros/%s", vi, n, why), append(append([]byte{}, v...), make([]byte, n)...))
+			}
+			for _, blk := range []int{16, 64, 512, 4096, 8192, 16384, 65536} {
+				pad := blk - len(v)%blk
+				addPad(pad, fmt.Sprintf("to-a-multiple-of-%d", blk))
+				addPad(pad-1, fmt.Sprintf("one-short-of-a-multiple-of-%d", blk))
+				addPad(pad+1, fmt.Sprintf("one-beyond-a-multiple-of-%d", blk))
+				addPad(pad+blk, fmt.Sprintf("to-the-second-multiple-of-%d", blk))
+			}
+			step := 1
+			if x.Quick() {
+				step = 61
+			}
+			for n := 1; n <= 4096; n += step {
+				addPad(n, "sweep")
+			}
+		}
+	}
 	// a valid quote inside the envelopes it travels in (the driver's shared GetQuote buffer, the quote generation service's
 	// message, length prefixes, text encodings, the serialised message): none of them is a quote
 	{
